@@ -26,6 +26,12 @@ pub const NAMES: [&str; 9] = ["A1", "A2", "A3", "A4", "J", "R", "Rlow", "Cdep", 
 
 pub const DIAMOND: [&str; 8] = ["A1", "B", "C", "D", "E", "F", "R", "Rc"];
 
+/// universe 2 (ancestor limit four): a chain P1 -> P2 -> Dd whose last member uses the confirmed
+/// cell X (= G3) as a cell dep, a second dep user De without ancestors, an unrelated parent Q, and
+/// two consumers of X: T (spends Q#0 + X: Dd is its parent only through the dep) and T2 (spends
+/// Dd#0 + Q#1 + X: Dd is a dep user of X AND the creator of one of T2's inputs).
+pub const DEPEVICT: [&str; 7] = ["P1", "P2", "Dd", "Q", "T", "T2", "De"];
+
 pub struct PoolUniverse {
     pub variant: u8,
     pub names: Vec<&'static str>,
@@ -57,6 +63,19 @@ impl PoolUniverse {
                 txs.insert(*n, t);
             }
             PoolUniverse { variant, names: NAMES.to_vec(), txs }
+        } else if variant == 2 {
+            let x = CellDep::new_builder().out_point(g[3].0.clone()).build();
+            let p1 = simple_tx(cons, &g[0..1], 1, 1_000_000, 1);
+            let p2 = simple_tx(cons, &[out(&p1, 0)], 1, 1_100_000, 2);
+            let dd = simple_tx(cons, &[out(&p2, 0)], 1, 1_200_000, 3).as_advanced_builder().cell_dep(x.clone()).build();
+            let q = simple_tx(cons, &g[1..2], 2, 900_000, 4);
+            let t = simple_tx(cons, &[out(&q, 0), g[3].clone()], 1, 3_000_000, 5);
+            let t2 = simple_tx(cons, &[out(&dd, 0), out(&q, 1), g[3].clone()], 1, 3_500_000, 6);
+            let de = simple_tx(cons, &g[2..3], 1, 800_000, 7).as_advanced_builder().cell_dep(x).build();
+            for (n, t) in DEPEVICT.iter().zip([p1, p2, dd, q, t, t2, de]) {
+                txs.insert(*n, t);
+            }
+            PoolUniverse { variant, names: DEPEVICT.to_vec(), txs }
         } else {
             let a1 = simple_tx(cons, &g[0..1], 2, 1_000_000, 1);
             let b = simple_tx(cons, &[out(&a1, 0)], 2, 1_100_000, 2);
@@ -95,8 +114,9 @@ pub fn pool_config(rbf: bool, variant: u8) -> TxPoolConfig {
     c.min_fee_rate = FeeRate::from_u64(1_000);
     c.min_rbf_rate = FeeRate::from_u64(if rbf { 1_500 } else { 1_000 });
     c.expiry_hours = 1;
-    // room for about five of the universe's transactions
-    c.max_tx_pool_size = 1_650;
+    // room for about five of the universe's transactions (universe 2 is about the eviction inside
+    // the ancestor check: the size limit stays out of its way)
+    c.max_tx_pool_size = if variant == 2 { 100_000 } else { 1_650 };
     c
 }
 
@@ -338,7 +358,7 @@ pub fn meta(tier: Tier) -> Meta {
         level: "model_checking",
         rule: "state = operation history (replayed on a real node that is reset to genesis tip + empty pool by truncate + clear_pool between histories, rebooted every 400 histories) over {Submit(t), Remove(t) for the designed transactions of the universe (0: chain of four against ancestor limit 3, a join of two unrelated parents, a sufficient and an insufficient replacement, a dep user and the dep cell spender; 1: diamond A1->{B,C}->D with tail F against ancestor limit 4, sibling E, replacement of the root, replacement of one arm), Mine, Expire(+2h)} replayed on a fresh real node + tx-pool service (ancestor limit 3, pool size limit ~5 txs, expiry 1h; RBF on and off); BFS by depth, states merged only when (tip, sorted entries with status and recorded parents, conflict-cache ids) agree; after EVERY operation the hook dump is judged: no double spend, input/dep edge maps = inputs/deps of the pooled txs, link key set = entries, parents justified by a spend/dep relation and containing every spend/dep of a pooled output, children = transpose, ancestor/descendant (count,size,cycles,fee) = recomputation over the link closure, per-status counts and totals, ancestor limit, and the RBF rule on every successful replacement (replaced + descendants gone, fee >= their fees + min_rbf_rate*size; a rejected one leaves the pool unchanged). non-trivial = state with >= 2 linked entries or reached through Mine/Expire/replacement.",
         assumptions: &["reorganisations onto a competing branch are C12's subject and not in this alphabet", "the pool's public RPC views are not compared here (the hook dump is the observed state)"],
-        bounds: json!({"configs_universe_rbf_depth": if tier.is_thorough() { json!([[0, true, 6], [1, true, 6], [0, false, 6], [1, false, 5]]) } else { json!([[0, true, 5], [1, true, 4], [0, false, 4]]) }, "split": "(config, op1, op2) round-robin over 16 workers, level-synchronous BFS with a per-worker seen set", "universe_0": NAMES, "universe_1_diamond": DIAMOND}),
+        bounds: json!({"configs_universe_rbf_depth": if tier.is_thorough() { json!([[0, true, 6], [1, true, 6], [0, false, 6], [1, false, 5], [2, true, "P1 P2 Dd Q + 4"], [2, false, "P1 P2 Dd Q + 3"], [2, true, 5]]) } else { json!([[0, true, 5], [1, true, 4], [0, false, 4], [2, true, "P1 P2 Dd Q + 2"]]) }, "split": "(config, op1, op2) round-robin over 16 workers, level-synchronous BFS with a per-worker seen set", "universe_0": NAMES, "universe_1_diamond": DIAMOND, "universe_2_dep_evict": DEPEVICT}),
     }
 }
 
@@ -366,6 +386,23 @@ fn replay_history(ctx: &Ctx, cons: &Consensus, rbf: bool, variant: u8, hist: &[O
         for (kind, msg) in judge(&post, &drv.u, drv.u.max_ancestors()) {
             report.violation(format!("bookkeeping/{kind}"), format!("after {:?} ({obs}): {msg}", op), label.clone());
             ok = false;
+        }
+        // every input of a pooled tx is an output of a pooled tx or a live cell of the chain (a
+        // parent link that "corresponds to an actual spend" needs the spent output to exist)
+        {
+            use ckb_types::core::cell::{CellProvider, CellStatus};
+            let snap = drv.node.shared.snapshot();
+            for e in &post.entries {
+                for pt in e.tx.input_pts_iter() {
+                    let idx: u32 = pt.index().unpack();
+                    let pooled = post.entries.iter().any(|p| p.tx.hash() == pt.tx_hash() && (idx as usize) < p.tx.outputs().len());
+                    let live = matches!(snap.cell(&pt, false), CellStatus::Live(_));
+                    if !pooled && !live {
+                        report.violation("bookkeeping/input-neither-pooled-nor-live", format!("after {:?} ({obs}): pooled {} spends {}#{idx}, which is neither an output of a pooled transaction nor a live cell", op, drv.u.name_of(&e.id), drv.u.txs.iter().find(|(_, t)| t.hash() == pt.tx_hash()).map(|(n, _)| n.to_string()).unwrap_or_else(|| "a chain cell".into())), label.clone());
+                        ok = false;
+                    }
+                }
+            }
         }
         if matches!(op, Op::Mine | Op::Expire) {
             special = true;
@@ -443,26 +480,32 @@ pub fn run(ctx: &Ctx) -> Report {
         report.outcomes.insert(1);
         return report;
     }
-    // (universe, rbf, depth)
-    let configs: Vec<(u8, bool, usize)> = if ctx.tier.is_thorough() { vec![(0, true, 6), (1, true, 6), (0, false, 6), (1, false, 5)] } else { vec![(0, true, 5), (1, true, 4), (0, false, 4)] };
+    // (universe, rbf, depth, prefix): the search starts after `prefix` (empty = from the empty pool)
+    let sub = |names: &[&str], all: &[&str]| -> Vec<Op> { names.iter().map(|n| Op::Submit(all.iter().position(|x| x == n).unwrap())).collect() };
+    let dep_prefix = sub(&["P1", "P2", "Dd", "Q"], &DEPEVICT);
+    let configs: Vec<(u8, bool, usize, Vec<Op>)> = if ctx.tier.is_thorough() {
+        vec![(0, true, 6, vec![]), (1, true, 6, vec![]), (0, false, 6, vec![]), (1, false, 5, vec![]), (2, true, 4, dep_prefix.clone()), (2, false, 3, dep_prefix.clone()), (2, true, 5, vec![])]
+    } else {
+        vec![(0, true, 5, vec![]), (1, true, 4, vec![]), (0, false, 4, vec![]), (2, true, 2, dep_prefix.clone())]
+    };
     // the search is split by (config, first op, second op) over the worker processes; each worker
     // runs one level-synchronous BFS over all its roots per config, with a shared seen-set (so a
     // state is expanded at the smallest depth this worker reaches it)
     let mut ri = 0u64;
-    for (variant, rbf, depth) in configs {
-        let n_txs = if variant == 0 { NAMES.len() } else { DIAMOND.len() };
+    for (variant, rbf, depth, prefix) in configs {
+        let n_txs = PoolUniverse::new(&cons, variant).names.len();
         let mut ops: Vec<Op> = (0..n_txs).map(Op::Submit).collect();
         ops.extend((0..n_txs).map(Op::Remove));
         ops.push(Op::Mine);
         ops.push(Op::Expire);
-        let firsts: Vec<Op> = ops.iter().cloned().filter(|op| matches!(op, Op::Submit(_) | Op::Mine)).collect();
+        let firsts: Vec<Op> = ops.iter().cloned().filter(|op| matches!(op, Op::Submit(_) | Op::Mine) || prefix.contains(&match op { Op::Remove(i) => Op::Submit(*i), o => *o })).collect();
         let mut seen: HashSet<u64> = HashSet::new();
         let mut frontier: Vec<Vec<Op>> = vec![];
         let mut slot: Option<Driver> = None;
         for first in &firsts {
             for second in &ops {
                 if let Op::Remove(i) = second {
-                    if *first != Op::Submit(*i) {
+                    if *first != Op::Submit(*i) && !prefix.contains(&Op::Submit(*i)) {
                         continue;
                     }
                 }
@@ -470,7 +513,9 @@ pub fn run(ctx: &Ctx) -> Report {
                 if !ctx.mine(ri) {
                     continue;
                 }
-                let h = vec![*first, *second];
+                let mut h = prefix.clone();
+                h.push(*first);
+                h.push(*second);
                 match replay_history(ctx, &cons, rbf, variant, &h, &mut report, &mut slot) {
                     Ok(Some(f)) => {
                         if seen.insert(f) {
